@@ -258,11 +258,6 @@ def run_check(pid, tier, seed, only, jobs, write_evidence=True):
         budget = float(os.environ["VERIF_WALL_S"])      # (development aid: a shorter exploration of the depth obligations)
     deadline = t0 + budget
     qtimeout = getattr(mod, "QTIMEOUT_MS", {}).get(tier, 5000 if tier == "quick" else 30000)
-    # the required obligations of the thorough tier are the quick tier's: they run with the quick tier's solver settings too
-    qtimeout_req = getattr(mod, "QTIMEOUT_MS", {}).get("quick", 5000)
-
-    def qt_of(name):
-        return qtimeout_req if obs[name].required else qtimeout
     import random
     rnd = random.Random(seed)
 
@@ -282,7 +277,7 @@ def run_check(pid, tier, seed, only, jobs, write_evidence=True):
         pending = []
         for n in order:
             ob = obs[n]
-            pending.append((n, pool.apply_async(run_task, ((pid, tier, n, None, ob.split, qt_of(n), deadline),))))
+            pending.append((n, pool.apply_async(run_task, ((pid, tier, n, None, ob.split, qtimeout, deadline),))))
         while pending:
             nxt = []
             progressed = False
@@ -323,7 +318,7 @@ def run_check(pid, tier, seed, only, jobs, write_evidence=True):
                 fr = res["frontiers"]
                 rnd.shuffle(fr)
                 for pre in fr:
-                    nxt.append((res["ob"], pool.apply_async(run_task, ((pid, tier, res["ob"], pre, None, qt_of(res["ob"]), deadline),))))
+                    nxt.append((res["ob"], pool.apply_async(run_task, ((pid, tier, res["ob"], pre, None, qtimeout, deadline),))))
             pending = nxt
             if not progressed:
                 time.sleep(0.05)
